@@ -263,6 +263,8 @@ func snapshot(v any) any {
 	switch x := v.(type) {
 	case nil:
 		return nil
+	case keptError:
+		return "decode error: " + strings.Clone(x.err.Error())
 	case []byte:
 		return append([]byte(nil), x...)
 	case string:
@@ -302,7 +304,16 @@ func snapshot(v any) any {
 	return cp
 }
 
+// keptError wraps an error value a caller holds on to (queued for a log line or a negative acknowledgement).
+type keptError struct{ err error }
+
 func sameValue(a, b any) (bool, string) {
+	if k, ok := b.(keptError); ok {
+		b = "decode error: " + k.err.Error() // rendered now
+	}
+	if k, ok := a.(keptError); ok {
+		a = "decode error: " + k.err.Error()
+	}
 	switch x := a.(type) {
 	case nil:
 		return b == nil, "nil"
@@ -446,6 +457,10 @@ func genHistory(c *core.Chooser, prop string, tid int, maxOps int) []hop {
 				f = cmppFamily(o.coding)
 			}
 			o.text = genSMSText(c, f, 100+c.Intn(400), nil2run)
+			if c.Prob(1, 40) {
+				// far beyond 255 parts: the call is refused (and says so in its own words)
+				o.text = strings.Repeat(o.text, 1+(36000+c.Intn(30000))/max(len(o.text), 1))
+			}
 			o.ref = byte(c.Intn(256))
 		case 4:
 			o.text = string(append([]byte{5, 0, 3, byte(c.Intn(256)), byte(1 + c.Intn(5)), byte(1 + c.Intn(5))}, c.Blob(c.Intn(40), "any")...))
@@ -614,7 +629,9 @@ func execOp(r *core.Run, t *taskState, o hop) (live any, label string, panicked 
 				derr = pdu.IDecode(view)
 			}
 			if derr != nil {
-				live = "decode error"
+				// the error value is a result too: it is kept, and what it says must not change when the buffer it
+				// was decoded from is overwritten or refilled
+				live = withBirth{live: keptError{derr}, birth: "decode error: " + strings.Clone(derr.Error())}
 			} else {
 				// FAULT scribble_output: a second PDU decoded from the same frame belongs to another owner,
 				// who overwrites every byte value it holds (decoded values share no memory with each other)
@@ -669,7 +686,7 @@ func execOp(r *core.Run, t *taskState, o hop) (live any, label string, panicked 
 				parts, _, err = protocol.EncodeCMPPContentAndSplit(ctx, o.text, datacoding.CMPPDataCoding(o.coding), o.ref)
 			}
 			if err != nil {
-				live = "split error"
+				live = "split error: " + err.Error() // the text of an error is part of what the call returned
 			} else {
 				live = parts
 			}
